@@ -49,7 +49,12 @@ func jsonMutations(doc []byte) [][2]string {
 	if err != nil {
 		return out
 	}
-	repl := []string{`null`, `true`, `0`, `-1`, `1e400`, `"x"`, `[]`, `{}`, strings.Repeat("[", 100) + strings.Repeat("]", 100), strings.Repeat(`{"a":`, 100) + `1` + strings.Repeat("}", 100), `"\ud800"`, "\"\xff\""}
+	longStr := func(r string, n, pad int) string {
+		b, _ := json.Marshal(strings.Repeat("p", pad) + strings.Repeat(r, n))
+		return string(b)
+	}
+	repl := []string{longStr("é", 150, 0), longStr("é", 150, 1), longStr("日", 100, 0), longStr("日", 100, 1), longStr("日", 100, 2), longStr("x", 5000, 0),
+		`null`, `true`, `0`, `-1`, `1e400`, `"x"`, `[]`, `{}`, strings.Repeat("[", 100) + strings.Repeat("]", 100), strings.Repeat(`{"a":`, 100) + `1` + strings.Repeat("}", 100), `"\ud800"`, "\"\xff\""}
 	var walk func(node any, rebuild func(sub string) string)
 	walk = func(node any, rebuild func(sub string) string) {
 		for _, r := range repl {
@@ -96,6 +101,17 @@ func jsonMutations(doc []byte) [][2]string {
 				return b.String()
 			}
 			out = append(out, [2]string{"unknown_key", rebuild(render(nil, `"zzUnknownKey":1`))})
+			// long member names in 1-, 2- and 3-byte runes around power-of-two sizes, with 0..3 bytes of ASCII padding
+			// (size- or truncation-sensitive error reporting)
+			for _, r := range []string{"k", "é", "日"} {
+				for _, n := range []int{64, 128, 150, 256, 300} {
+					for pad := 0; pad < 4; pad++ {
+						name := strings.Repeat("p", pad) + strings.Repeat(r, n)
+						kb, _ := json.Marshal("zzUnknownKey" + name)
+						out = append(out, [2]string{"long_unknown_key", rebuild(render(nil, string(kb)+":1"))})
+					}
+				}
+			}
 			for _, k := range keys {
 				k := k
 				kb, _ := json.Marshal(k)
@@ -130,7 +146,10 @@ func c11Unit(j *Job, u *JobUnit) error {
 	maxL := 4
 	maxB := 2
 	if j.Thorough {
-		maxL, maxB = 5, 3
+		maxL = 5
+	}
+	if v := j.Params["maxB"]; v != "" {
+		fmt.Sscanf(v, "%d", &maxB)
 	}
 	if v := j.Params["maxL"]; v != "" {
 		fmt.Sscanf(v, "%d", &maxL)
@@ -230,7 +249,7 @@ func c11Unit(j *Job, u *JobUnit) error {
 					keyPaths(bv, "", have, true)
 					keyPaths(ev, "", want, false)
 					for k := range have {
-						if !want[k] && !strings.HasSuffix(k, "zzUnknownKey") {
+						if !want[k] && !strings.Contains(k, "zzUnknownKey") {
 							// map keys are data, not schema: only judge when the parent is not a map in the explicit form
 							if mapLike(ev, k) {
 								continue
@@ -238,7 +257,7 @@ func c11Unit(j *Job, u *JobUnit) error {
 							bad("partially_decoded_dispatched")
 							return
 						}
-						if strings.HasSuffix(k, "zzUnknownKey") {
+						if strings.Contains(k, "zzUnknownKey") {
 							bad("partially_decoded_dispatched")
 							return
 						}
